@@ -167,6 +167,21 @@ theorem execDecls_ok_iff (s : Src) (ds : List Decl) (env : Env) (g : Bool) :
 theorem keys_bound (s : Src) (ds : List Decl) : keys (ds.map fun d => (d.target, d.val s)) = ds.map Decl.target := by
   simp [keys, List.map_map, Function.comp_def]
 
+theorem declOf_target (c : GenCfg) (i : Idents) (x : Name) : (declOf c i x).target = x := by
+  unfold declOf
+  split
+  · rfl
+  · split
+    · rfl
+    · split <;> split <;> rfl
+
+theorem declBlock_targets (c : GenCfg) (i : Idents) (o : List Name) : (declBlock c i o).map Decl.target = o := by
+  induction o with
+  | nil => rfl
+  | cons x r ih =>
+    simp only [declBlock, List.map_cons] at ih ⊢
+    rw [ih, declOf_target]
+
 /-! ## registry -/
 
 theorem get_filter_not_keys {β} (r : List (Name × β)) (ks : List Name) (k : Name) (h : k ∉ ks) :
@@ -447,8 +462,8 @@ theorem insertSorted_comm (x y : Str) (s : List Str) :
     · simp only [insertSorted, hy, hx, if_true]
       by_cases h1 : strLe x y = true <;> by_cases h2 : strLe y x = true
       · rw [strLe_antisymm x y h1 h2]
-      · simp [h1, h2, hx]
-      · simp [h1, h2, hy]
+      · simp [h1, h2]
+      · simp [h1, h2]
       · rcases strLe_total x y with h | h
         · exact absurd h h1
         · exact absurd h h2
